@@ -78,7 +78,9 @@ WsNormalBlock(d, M, i) ==
        /\ n > 0 => ~(inl[1].k = "x" /\ inl[1].c = 32) /\ ~(inl[n].k = "x" /\ inl[n].c = 32)
        /\ \A j \in 1..(n - 1) : ~(inl[j].k = "x" /\ inl[j].c = 32 /\ inl[j + 1].k = "x" /\ inl[j + 1].c = 32)
        \* a space next to a line break (hard_break) is collapsed by the parser's white-space rule
-       /\ \A j \in 1..(n - 1) : ~(inl[j].k = "l" /\ inl[j + 1].k = "x" /\ inl[j + 1].c = 32)
+       \* (only after a <br>: after an image or another inline leaf the space is content and must survive)
+       /\ \A j \in 1..(n - 1) : ~(inl[j].k = "l" /\ inl[j].t \in DOMAIN Dom.nodes /\ Dom.nodes[inl[j].t].tag = "br"
+                                    /\ inl[j + 1].k = "x" /\ inl[j + 1].c = 32)
 WsNormal(d) == LET M == MatchArr(d) IN
   \A i \in 1..Len(d) : (d[i].k = "o" /\ IsTextblock(d[i].t)) => WsNormalBlock(d, M, i)
 (* attributes the pinned bundled rules carry both ways *)
